@@ -393,7 +393,7 @@ fn check_kind(kind: Kind, v: &V) -> bool {
             | (Kind::Facet, V::Facet(_))
             | (Kind::Bytes, V::Bytes(_) | V::BigB { .. })
             | (Kind::Ip, V::Ip(..))
-            | (Kind::JsonAny, V::Obj(_))
+            | (Kind::JsonAny, V::Obj(_) | V::Arr(_))
             | (Kind::JsonIdx, V::Obj(_))
     )
 }
@@ -500,6 +500,21 @@ pub fn group<'a>(it: impl Iterator<Item = (Field, OwnedValue)> + 'a) -> Expected
     let mut m: Expected = BTreeMap::new();
     for (f, v) in it {
         m.entry(f.field_id()).or_default().push(from_owned(&v).canon());
+    }
+    m
+}
+pub fn schema() -> &'static Schema {
+    static S: std::sync::OnceLock<Schema> = std::sync::OnceLock::new();
+    S.get_or_init(build_schema)
+}
+/// the same grouping read through `Document::to_named_doc` (what `to_json` renders): field name -> values in order
+pub fn group_named(doc: &TantivyDocument, schema: &Schema) -> Expected {
+    let named = doc.to_named_doc(schema);
+    let mut m: Expected = BTreeMap::new();
+    for (name, vals) in named.0 {
+        if let Ok(f) = schema.get_field(&name) {
+            m.insert(f.field_id(), vals.iter().map(|v| from_owned(v).canon()).collect());
+        }
     }
     m
 }
@@ -740,6 +755,11 @@ fn json_object(leaf: BoxedStrategy<V>) -> BoxedStrategy<V> {
     prop::collection::vec((key_string(), member), 0..5).prop_map(|e| V::Obj(dedup_keys(e))).boxed()
 }
 
+fn top_array() -> BoxedStrategy<V> {
+    let inline = prop_oneof![2 => Just(V::Null), 3 => any::<bool>().prop_map(V::Bool), 1 => Just(V::Arr(vec![])), 1 => Just(V::Obj(vec![]))];
+    let nested = prop::collection::vec(inline.clone(), 0..4).prop_map(V::Arr);
+    prop::collection::vec(prop_oneof![5 => inline, 1 => nested], 0..5).prop_map(V::Arr).boxed()
+}
 fn value_for(kind: Kind, big: u32) -> BoxedStrategy<V> {
     match kind {
         Kind::Text => prop_oneof![10 => text_value(big), 1 => pre_wild()].boxed(),
@@ -752,7 +772,9 @@ fn value_for(kind: Kind, big: u32) -> BoxedStrategy<V> {
         Kind::Facet => facets().prop_map(V::Facet).boxed(),
         Kind::Bytes => bytes_value(big).boxed(),
         Kind::Ip => ips(),
-        Kind::JsonAny => json_object(leaf_any()),
+        // the stored-only JSON field also takes top-level arrays (add_field_value with OwnedValue::Array), in particular
+        // arrays whose elements have no payload of their own (null, bool, empty containers)
+        Kind::JsonAny => prop_oneof![12 => json_object(leaf_any()), 1 => top_array(), 1 => prop::collection::vec(tree(leaf_any()), 0..4).prop_map(V::Arr)].boxed(),
         Kind::JsonIdx => json_object(leaf_json()),
     }
 }
@@ -797,6 +819,7 @@ pub fn doc_spec(big: u32, indexed_ok: bool) -> BoxedStrategy<DocSpec> {
             a.extend(b);
             a
         }),
+        1 => (top_array(), prop::collection::vec(field_value(0, indexed_ok), 0..3)).prop_map(|(a, rest)| std::iter::once((11u8, a)).chain(rest).collect::<Vec<_>>()),
         1 => Just(vec![]),
         // >= 128 values in one document (multi-byte value count)
         1 => (prop_oneof![Just(127usize), Just(128), Just(129), 100usize..280], any::<u8>()).prop_map(|(n, salt)| (0..n).map(|k| match (k + salt as usize) % 4 {
